@@ -35,12 +35,13 @@ static int dnsDelayMs = 5;
 struct Timer { int64_t at; void (*fn)(void*); void* arg; uint64_t seq; };
 static std::vector<Timer> timers; static uint64_t timerSeq = 0;
 static std::vector<File*> allFiles;
+static uint64_t epollWaitCallCount = 0;   // epoll_wait calls in this run (poll rounds of an event loop)
 static void callFailHook(int fd, bool isSend, int err);
 
 static void resetNet() {
   for (File* f : allFiles) delete f;
   allFiles.clear(); rootTable.m.clear(); memset(taskTable, 0, sizeof taskTable); nextSockFd = 100000; nextFileId = 1; defaultCap = 65536; netWaiters.clear(); sendHook = 0; failHook = 0;
-  listeners.clear(); nextPort = 40000; timers.clear(); timerSeq = 0; dnsDelayMs = 5;
+  listeners.clear(); nextPort = 40000; timers.clear(); timerSeq = 0; dnsDelayMs = 5; epollWaitCallCount = 0;
 }
 static struct Reg { Reg() { addResetHook(resetNet); } } reg;
 
@@ -106,6 +107,7 @@ void setSendHook(void (*fn)(int, size_t)) { sendHook = fn; }
 void setFailHook(void (*fn)(int, bool, int)) { failHook = fn; }
 void setDnsDelayMs(int ms) { dnsDelayMs = ms; }
 int openFdCount() { return (int)rootTable.m.size(); }
+uint64_t epollWaitCalls() { return epollWaitCallCount; }
 int fileIdWatermark() { return nextFileId; }
 size_t acceptQueueLen(int fd) { File* f = lookup(fd); return (f && f->kind == FK_LISTENER) ? f->acceptQ.size() : 0; }
 size_t peerSpace(int fd) { File* f = lookup(fd); if (!f || !f->peer || f->peerClosed) return 0; return f->peer->q.size() < f->peer->capacity ? f->peer->capacity - f->peer->q.size() : 0; }
@@ -384,6 +386,7 @@ int __wrap_epoll_ctl(int epfd, int op, int fd, struct epoll_event* ev) {
 int __wrap_epoll_wait(int epfd, struct epoll_event* out, int maxev, int timeout) {
   File* e = inTask() ? lookup(epfd) : 0; if (!e) return epoll_wait(epfd, out, maxev, timeout);
   HostG h; chargeCall(); yieldSync();
+  epollWaitCallCount++;
   if (e->kind != FK_EPOLL || maxev <= 0) { errno = EINVAL; return -1; }
   int64_t deadline = timeout < 0 ? -1 : nowNs() + (int64_t)timeout * 1000000LL;
   if (choose(K_EINTR, 2)) { fault("eintr"); errno = EINTR; return -1; }
